@@ -147,6 +147,10 @@ func (u *Unit) structSort(t types.Type) string {
 	var fields []string
 	for i := 0; i < st.NumFields(); i++ {
 		f := st.Field(i)
+		if _, isArr := f.Type().Underlying().(*types.Array); isArr {
+			// array-valued fields are not modelled (only padding/reserved fields of syscall structs occur)
+			continue
+		}
 		fs := u.sortOf(f.Type())
 		fields = append(fields, fmt.Sprintf("(%s_%s %s)", name, sanitize(f.Name()), fs))
 	}
@@ -195,6 +199,9 @@ func (u *Unit) zero(t types.Type) Term {
 	case *types.Struct:
 		var fs []Term
 		for i := 0; i < x.NumFields(); i++ {
+			if _, isArr := x.Field(i).Type().Underlying().(*types.Array); isArr {
+				continue
+			}
 			fs = append(fs, u.zero(x.Field(i).Type()))
 		}
 		return u.mkStruct(t, fs)
